@@ -275,7 +275,7 @@ def run(ctx, rep):
            "return self._dict[key][0]" if okg else "__getitem__ no longer returns the stored object", fget.loc, kind="site")
 
     # ------------------------------------------------------------------ R10.5
-    K.share(ctx, rep, "c11", lambda o: (o.rule == "R11.2" and ("is cleared" in o.key or "emptied after" in o.key)) or
+    K.share(ctx, rep, "c11", lambda o: (o.rule == "R11.2" and ("is cleared" in o.key or "emptied after" in o.key or "is dropped" in o.key)) or
             (o.rule == "R11.1" and ("runs _cleanup" in o.key or "_cleanup is told" in o.key)), "R10.5", floor=5)
     ctor = K.init_field_ctor(ctx, K.CONN, "_proxy_cache")
     okw = isinstance(ctor, ast.Call) and (A.call_name(ctor) or "").endswith("WeakValueDict")
